@@ -21,6 +21,7 @@ import numpy as np
 
 from harness.core import PropertyCheck
 from harness.props import c11_more as M2
+from harness.props import c11_w3 as W3
 from harness.util import Snapshot, close, errname
 from harness.util import fr as _fr
 
@@ -209,35 +210,55 @@ def with_timeout(f, seconds=2.0):
 class C11(PropertyCheck):
     id = "C11"
     title = "Graph algorithms return what their graph-theoretic definitions say"
-    lean_modules = ["NipyVerif.Props.C11"]
+    lean_modules = ["NipyVerif.Props.C11", "NipyVerif.Props.C11W", "NipyVerif.Props.C11Bor"]
     driver = "Drivers/C11.lean"
-    rule = ("cases are operation histories on one graph object (a query that may memoise, then in-place / copying "
-            "structural operations — normalize, (anti_)symmeterize, remove_trivial_edges, cut_redundancies, copy, subgraph, "
-            "set_weights, set_euclidian, set_gaussian, remove_edges — each followed by shortest-path, Voronoi, component, "
-            "spanning-forest, adjacency, degree, incidence, neighbour-list, is_connected and main_cc queries, every step "
-            "compared with the model and with a recomputation from the object's current edges), "
-            "weighted (multi)digraphs / symmetric graphs with seeds and a vertex mask (every structural operation, every "
-            "query, the matrix builders from dense / coo / csr input, the unweighted base class), point clouds "
-            "with k and eps (knn, eps_nn, mst, euclidean_distance), pairs of point clouds (cross_knn, cross_eps), "
-            "bipartite graphs with left/right vertex masks, seed/sample sets for voronoi_diagram, complete graphs, and sets "
-            "of lattice coordinates; thorough enumerates every "
+    rule = ("cases are operation histories on one graph object obtained from the constructor or from a builder "
+            "(wgraph_from_coo_matrix on coo / csr / csc / lil input with SciPy's int32 indices, wgraph_from_adjacency, knn, "
+            "eps_nn, mst, wgraph_from_3d_grid, complete_graph, concatenate_graphs): a query that may memoise, then in-place / "
+            "copying structural operations — normalize(0 / 1 / 2), (anti_)symmeterize, remove_trivial_edges, "
+            "cut_redundancies, copy, subgraph and remove_edges with the selector as 0/1, bool, signed scores, floats, a "
+            "column or uint8, set_weights, set_euclidian (coordinates in several integer types and memory layouts), "
+            "set_gaussian, concatenate_graphs, from_3d_grid, voronoi_diagram — each followed by shortest-path, Voronoi, "
+            "component, spanning-forest, adjacency, compact_neighb, degree, incidence, neighbour-list, is_connected and "
+            "main_cc queries, every step compared with the model and with a recomputation from the object's current "
+            "edges; weighted (multi)digraphs / symmetric graphs with seeds and a vertex mask, edge indices in "
+            "int8…int64 / uint8 / uint16 and weights in int8…int64 / uint8 / uint16 when integral (every structural "
+            "operation, every query, the matrix builders from dense / Fortran-ordered / coo / csr / csc / lil input, the "
+            "unweighted base class; graphs on 40-300 vertices also through concatenate_graphs and compact_neighb); point "
+            "clouds with k and eps (knn, eps_nn, mst, euclidean_distance) and pairs of point clouds (cross_knn, cross_eps), "
+            "near and far from the origin, given as float64 or int8…int64 / uint8 / uint16 and as C / Fortran / strided / "
+            "negative-stride / read-only arrays; bipartite graphs with left/right vertex masks and from coo input with "
+            "stored zeros; seed/sample sets for voronoi_diagram (a single seed included); complete graphs; sets of lattice "
+            "coordinates in signed / unsigned / float types; thorough enumerates every "
             "digraph on <= 4 vertices, every weighted digraph on 3 vertices and every weighted symmetric graph "
             "on 4 vertices with weights in {0,1,2}, every undirected graph on 5 vertices, every subset of the 2x2x2 lattice "
-            "cube; non-trivial = at least one edge (graphs) or at least two points; distinct by full JSON of the case")
+            "cube; non-trivial = at least one edge (graphs), at least two points, or a history of >= 3 calls; distinct by "
+            "full JSON of the case")
     assumptions = [
         "Euclidean distances (a sqrt) are a parameter of the knn / eps_nn models: the matrix nipy computed is passed "
-        "to the model as exact dyadic rationals; euclidean_distance itself is modelled exactly up to the sqrt "
-        "(sqDist_eq_def) and the returned roots are accepted when s*s is within 2^-48 (relative) of the exact square",
-        "compact_neighb slice order and scipy's lil row order are modelled as edge-list order (no result depends on them)",
+        "to the model as exact dyadic rationals; euclidean_distance and set_euclidian are modelled exactly up to the sqrt "
+        "(sqDist_eq_def, edgeSq) and the returned roots are accepted when s*s is within 2^-48 (relative) of the exact square",
+        "compact_neighb is modelled as written (argsort of edges[:,0] * float(V) + edges[:,1], slices cut at the cumulated "
+        "out-degrees; compact_slice_perm proves the slices hold exactly the out-edges); the double-precision key is the "
+        "integer key under V*V <= 2^53, which the model checks on every line (cnExact) and the generator never exceeds; "
+        "np.argsort's order among rows with equal keys (repetitions of one pair) is not modelled: a slice is compared as a "
+        "multiset. scipy's lil row order is modelled as sorted distinct targets",
         "np.argsort tie order (kruskal, cross_knn, voronoi_diagram) is not modelled: sorted weights / admissible pairs "
-        "are the canonical observation",
+        "are the canonical observation; for voronoi_diagram the pair of nearest seeds cross_knn returns for every sample "
+        "is a parameter of the model, certified on every line (nearest2OK: distinct, nearest, second nearest)",
         "Voronoi labels are specified up to ties: with weights whose path sums are exact in double precision the labels "
-        "must equal the model's (loop as written); after normalize / set_gaussian / set_euclidian a label is accepted "
-        "iff its seed is a nearest one by the model's exact distances within 1e-12",
-        "set_gaussian: the exponent -d^2/(2 sigma) is exact in the model; exp is applied by the implementation only "
-        "(compared through log to 1e-9, and by the oracle against numpy)",
+        "must equal the model's (loop as written); after normalize / set_gaussian / set_euclidian / on builder outputs "
+        "with inexact lengths a label is accepted iff its seed is a nearest one by the model's exact distances within 1e-12",
+        "set_gaussian / voronoi_diagram: the exponent -d^2/(2 sigma) is exact in the model; exp is applied by the "
+        "implementation only (compared through log to 1e-9, and by the oracle against numpy)",
+        "normalize(2): the two diagonal scalings 1/s**.5 the implementation hands back are parameters of the model, "
+        "certified on every line (r >= 0, r*r*s within 2^-40 of 1, r = 1 where the sum is 0); the product r1[i]*a[i,j]*r2[j] "
+        "is exact in the model and compared to 1e-9. On directed graphs the documentation gives no meaning beyond "
+        "'nothing is performed where the sum is 0': the oracle states the zero / sign pattern, the model the code as written",
         "mst (Boruvka on point clouds): the loop is modelled as written on the squared distances; minimality follows from "
-        "mst_certificate_sound through the certificate mstCertB the model evaluates on every output (reported as `ok`)",
+        "mst_certificate_sound through the certificate mstCertB the model evaluates on every output (reported as `ok`); "
+        "cut_steps_certificate / boruvka_rounds_minimum show the certificate holds for every spanning result of abstract "
+        "Boruvka rounds (ties included); that mstLinks / mstMerge as written refine such rounds is the open lemma",
         "graph_3d_grid: distinct lattice points (the property quantifies over sets of coordinates)",
         "cross_knn / cross_eps use the squared Euclidean metric (weights and eps threshold), as their code and tests do",
         "kruskal pads its edge array with 2k-2 rows (0,0) of weight 0; the padding is not counted as part of the forest",
@@ -245,13 +266,23 @@ class C11(PropertyCheck):
         "normalize is divided in floating point: compared with the exact model to 1e-9",
         "BipartiteGraph.subgraph_right compares the mask length with V (as written and as its docstring says); the "
         "oracle states the documented result only where V = W",
+        "dtype / layout presentations are not part of the model (it works on the numbers): the oracle demands the "
+        "float64 / intp answer for every presentation; float32 is not presented (nipy then computes in single precision)",
         "cliques (replicator dynamics), show (plotting) are executed / excluded without a clause of the property",
     ]
     level_note = ("dijkstra, voronoi_labelling, cc and kruskal are proved correct for all inputs from their loop "
-                  "invariants (no certificate); graph_3d_grid is proved against the unit-offset definition for all "
-                  "sets of lattice points with tables regenerated from the source; structural operations and eps/knn "
-                  "builders are proved against the adjacency matrix; mst (Boruvka) minimality is certificate-based; "
-                  "cross_knn selection, voronoi_diagram and cliques are oracle-only")
+                  "invariants (no certificate); compact_neighb's slices are proved to be the out-edges for the key "
+                  "arithmetic as written (injectivity / lexicographic order of i*V+j, dtype bound as hypothesis); "
+                  "graph_3d_grid is proved against the unit-offset definition for all "
+                  "sets of lattice points with tables regenerated from the source; structural operations (also "
+                  "normalize(2) with certified scalings, remove_edges for any selector, csc input), eps/knn "
+                  "builders, main_cc and voronoi_diagram (given the certified nearest pairs) are proved against the "
+                  "adjacency matrix / reachability; Boruvka's algorithm is proved to return a minimum spanning "
+                  "forest with ties (cut_steps_minimum, boruvka_round_cut_steps, boruvka_rounds_minimum: lightest "
+                  "proposals per component, examined in any order, accepted iff the ends are not yet connected) - "
+                  "that the loops of mst as written (mstLinks / argminR, the ufFind merge, cc relabelling, fuel) "
+                  "refine these abstract rounds is not proved (mst_minimal_of_cut_rows_partial names the glue): "
+                  "minimality of mst itself stays certificate-based; cross_knn selection and cliques are oracle-only")
 
     def translators(self):
         return [("NipyVerif/Gen/C11Grid.lean", M2.grid_lean_text())]
@@ -259,8 +290,13 @@ class C11(PropertyCheck):
     # ------------------------------------------------------------------
     # generation
     # ------------------------------------------------------------------
-    def _rand_graph(self, rng, V, sym, dens=None, big=False):
+    XDTYPES = [None, None, None, None, "int64", "int32", "int16", "int8", "uint8", "uint16"]
+    IWCHOICES = [0.0, 1.0, 1.0, 2.0, 3.0, 4.0, 100.0, 120.0, 200.0]
+    WDTYPES = [None, None, None, None, None, "int64", "int32", "int16", "uint8", "int8", "uint16"]
+
+    def _rand_graph(self, rng, V, sym, dens=None, big=False, integral=False):
         edges = []
+        WCH = self.IWCHOICES if integral else WCHOICES
         if dens is None:
             dens = rng.choice([0.0, 0.15, 0.3, 0.5, 0.8])
         pairs = [(u, v) for u in range(V) for v in range(V) if (u < v if sym else u != v)]
@@ -271,18 +307,18 @@ class C11(PropertyCheck):
             dens = 1.0
         for u, v in pairs:
             if rng.random() < dens:
-                w = rng.choice(WCHOICES)
+                w = rng.choice(WCH)
                 edges.append([u, v, w])
                 if sym:
                     edges.append([v, u, w])
                 if rng.random() < 0.15:      # parallel edge
-                    w2 = rng.choice(WCHOICES)
+                    w2 = rng.choice(WCH)
                     edges.append([u, v, w2])
                     if sym:
                         edges.append([v, u, w2])
         for v in range(V):
             if rng.random() < 0.08:          # self-loop
-                edges.append([v, v, rng.choice(WCHOICES)])
+                edges.append([v, v, rng.choice(WCH)])
         rng.shuffle(edges)
         return edges
 
@@ -295,7 +331,10 @@ class C11(PropertyCheck):
         if rng.random() < 0.05:
             valid = [0] * V
         c = {"kind": "g", "V": V, "e": edges, "seeds": seeds, "valid": valid, "sym": bool(sym),
-             "edtype": rng.choice([None, None, None, "int32", "int16", "uint8", "int8", "uint16", "int64"])}
+             "edtype": rng.choice([None, None, None, "int32", "int16", "uint8", "int8", "uint16", "int64"]),
+             # how the caller stores the weights ("type=int" in the class docstring): applied when every weight is
+             # a value of that type
+             "wdtype": rng.choice(self.WDTYPES)}
         if big:
             c["big"] = True
         return c
@@ -340,13 +379,16 @@ class C11(PropertyCheck):
         return out
 
     def _points(self, rng, n, dim):
-        style = rng.choice(["grid", "grid", "dup", "line", "half"])
+        style = rng.choice(["grid", "grid", "dup", "line", "half", "far", "far"])
+        far = [rng.choice([0, 100, 120, 181, 1000]) for _ in range(dim)]   # coordinates far from the origin
         pts = []
         for _ in range(n):
             if style == "half":
                 p = [rng.randrange(-6, 7) / 2 for _ in range(dim)]
             elif style == "line":
                 p = [float(rng.randrange(0, 6))] + [0.0] * (dim - 1)
+            elif style == "far":
+                p = [float(far[d] + rng.randrange(0, 4) * rng.choice([1, 1, 20])) for d in range(dim)]
             else:
                 p = [float(rng.randrange(0, 4)) for _ in range(dim)]
             pts.append(p)
@@ -358,45 +400,78 @@ class C11(PropertyCheck):
         return pts
 
     QUERIES = ["dij", "dij", "floyd", "vor", "cc", "kru", "dense", "compact", "deg", "linc", "rinc", "lon", "isc", "mcc"]
-    MUTS = ["normalize", "normalize", "symmeterize", "symmeterize", "anti_symmeterize", "rte", "cut", "copy",
-            "sub", "setw", "assignw", "euclid", "remove_edges", "scalew", "gauss"]
+    MUTS = ["normalize", "normalize", "normalize", "symmeterize", "symmeterize", "anti_symmeterize", "rte", "cut", "copy",
+            "sub", "setw", "assignw", "euclid", "remove_edges", "remove_edges", "scalew", "gauss", "concat", "from_grid",
+            "vdiag"]
+    STARTS = ["ctor", "ctor", "ctor", "ctor", "coo", "coo", "csr", "csc", "lil", "adj", "knn", "eps", "mst", "grid",
+              "complete", "cat"]
 
     def _hist_case(self, rng):
         """query -> in-place / copying operation -> query ... on one object; the first step always builds
-        whatever a query may memoise, every mutation is followed by at least one shortest-path query"""
+        whatever a query may memoise, every mutation is followed by at least one shortest-path query.  The object
+        is obtained from the constructor or from a builder (SciPy hands back int32 indices, the point-cloud
+        builders inexact lengths)."""
         V = rng.choice([2, 3, 4, 4, 5, 6, 8])
         style = rng.choice(["sym", "symedges", "directed"])
-        wide = rng.random() < 0.12
+        start = rng.choice(self.STARTS)
+        wide = rng.random() < 0.12 and start in ("ctor", "coo", "csr", "csc", "lil")
+        integral = rng.random() < 0.3
         if wide:      # more vertices than a narrow index type can square: V*V > 255 (uint8), sparse edges
-            V = rng.choice([17, 20, 24, 33, 40])
-            edges = self._rand_graph(rng, V, style != "directed", big=True)
+            V = rng.choice([17, 20, 24, 33, 40, 70, 130])
+            edges = self._rand_graph(rng, V, style != "directed", big=True, integral=integral)
         else:
-            edges = self._rand_graph(rng, V, style != "directed", rng.choice([0.3, 0.5, 0.8]))
+            edges = self._rand_graph(rng, V, style != "directed", rng.choice([0.3, 0.5, 0.8]), integral=integral)
+        if rng.random() < 0.04:
+            edges = []                 # a graph without edges goes through every operation as well
         if style == "symedges":        # symmetric edge set, asymmetric weights: symmeterize keeps E
-            edges = [[u, v, rng.choice(WCHOICES[1:])] for u, v, _ in edges]
+            edges = [[u, v, rng.choice((self.IWCHOICES if integral else WCHOICES)[1:])] for u, v, _ in edges]
         if rng.random() < 0.5:         # no stored zero: the E-preserving operations really keep E
             edges = [[u, v, w if w > 0 else 1.0] for u, v, w in edges]
+        c = {"kind": "hist", "V": V, "e": edges, "start": start,
+             # how the caller stores the edge indices (label / mesh files give narrow integer types, SciPy int32)
+             "edtype": rng.choice([None, None, None, "int32", "int16", "uint8", "int8", "uint16", "int64"]),
+             "wdtype": rng.choice(self.WDTYPES)}
+        if start in ("knn", "eps", "mst"):
+            n = rng.choice([2, 3, 4, 5, 6, 8])
+            c["X"] = self._points(rng, n, rng.choice([1, 2, 3]))
+            c["k"] = rng.choice([1, 1, 2, 3])
+            c["eps"] = rng.choice([1.0, 1.5, 2.0, 3.0])
+            c["V"], c["e"] = n, []
+        elif start == "grid":
+            cells = [(x, y, z) for x in range(3) for y in range(3) for z in range(2)]
+            pts = rng.sample(cells, rng.choice([2, 3, 4, 6, 8]))
+            c["xyz"] = [list(p) for p in pts]
+            c["k"] = rng.choice([6, 18, 26])
+            c["V"], c["e"] = len(pts), []
+        elif start == "complete":
+            c["V"], c["e"] = rng.choice([1, 2, 3, 4]), []
+        V = c["V"]
         steps = [[rng.choice(["dij", "floyd", "vor", "compact"]), [rng.randrange(V) for _ in range(2)]]]
         for _ in range(rng.choice([1, 2, 2, 3, 4])):
             m = rng.choice(self.MUTS)
             arg = None
             if m == "normalize":
-                arg = rng.choice([0, 0, 1, 2])
+                arg = rng.choice([0, 0, 1, 2, 2])
             elif m in ("sub", "remove_edges"):
                 arg = [1 if rng.random() < 0.75 else 0 for _ in range(64)]
+                if rng.random() < 0.05:
+                    arg = [0] * 64
             elif m in ("setw", "assignw"):
-                arg = [rng.choice(WCHOICES) for _ in range(64)]
-            elif m in ("euclid", "gauss"):
+                arg = [rng.choice(self.IWCHOICES if integral else WCHOICES) for _ in range(64)]
+            elif m in ("euclid", "gauss", "vdiag"):
                 arg = [float(rng.randrange(0, 9)) for _ in range(16)]
             elif m == "scalew":
                 arg = rng.choice([2.0, 0.5, 4.0])
+            elif m == "from_grid":
+                arg = [rng.randrange(0, 3) for _ in range(16)] + [rng.choice([6, 18, 26])]
+            elif m == "concat":
+                arg = rng.choice(["self", "self", "edgeless", "loop"])
             steps.append([m, arg])
             qs = [rng.choice(["dij", "floyd", "vor"])] + [rng.choice(self.QUERIES) for _ in range(rng.choice([0, 1, 2]))]
             for qn in qs:
                 steps.append([qn, [rng.randrange(8) for _ in range(rng.choice([1, 2, 3]))]])
-        return {"kind": "hist", "V": V, "e": edges, "steps": steps,
-                # how the caller stores the edge indices (label / mesh files give narrow integer types, SciPy int32)
-                "edtype": rng.choice([None, None, None, "int32", "int16", "uint8", "int8", "uint16", "int64"])}
+        c["steps"] = steps
+        return c
 
     def generate(self, rng, tier):
         q = tier == "quick"
@@ -418,11 +493,12 @@ class C11(PropertyCheck):
         for _ in range(250 if q else 3000):
             V = rng.choice([1, 2, 3, 4, 5, 6, 8, 10, 14, 20, 30])
             sym = rng.random() < 0.6
-            cases.append(self._gcase(rng, V, self._rand_graph(rng, V, sym), sym))
+            cases.append(self._gcase(rng, V, self._rand_graph(rng, V, sym, integral=rng.random() < 0.3), sym))
         for _ in range(12 if q else 120):
             V = rng.choice([40, 80, 150, 300])
             sym = rng.random() < 0.7
-            cases.append(self._gcase(rng, V, self._rand_graph(rng, V, sym, big=True), sym, big=True))
+            cases.append(self._gcase(rng, V, self._rand_graph(rng, V, sym, big=True, integral=rng.random() < 0.3), sym,
+                                     big=True))
         for _ in range(260 if q else 3000):   # operation histories on ONE graph object
             cases.append(self._hist_case(rng))
         for _ in range(20 if q else 150):     # malformed: a negative weight
@@ -437,14 +513,17 @@ class C11(PropertyCheck):
             X = self._points(rng, n, dim)
             k = rng.choice([1, 1, 2, 3, max(1, n - 2), max(1, n - 1), n, n + 3])
             cases.append({"kind": "pts", "X": X, "k": k,
-                          "eps": rng.choice([0.0, 0.5, 1.0, 1.0, 1.5, 2.0, 3.0, 100.0, -1.0])})
+                          "eps": rng.choice([0.0, 0.5, 1.0, 1.0, 1.5, 2.0, 3.0, 100.0, -1.0]),
+                          # the same coordinates as the caller may hold them (voxel indices, labels: integer types)
+                          "xdt": rng.choice(self.XDTYPES), "lay": rng.choice(W3.LAYOUTS)})
         for _ in range(120 if q else 1500):
             dim = rng.choice([1, 2, 3, 4])
             X = self._points(rng, rng.choice([1, 2, 3, 5, 8]), dim)
             Y = self._points(rng, rng.choice([1, 2, 3, 5, 8]), dim)
             n2 = len(Y)
             cases.append({"kind": "xpts", "X": X, "Y": Y, "k": rng.choice([1, 1, 2, max(1, n2 - 1), n2, n2 + 2]),
-                          "eps": rng.choice([0.0, 0.5, 1.0, 2.0, 4.0, 9.5, 100.0])})
+                          "eps": rng.choice([0.0, 0.5, 1.0, 2.0, 4.0, 9.5, 100.0]),
+                          "xdt": rng.choice(self.XDTYPES), "ydt": rng.choice(self.XDTYPES), "lay": rng.choice(W3.LAYOUTS)})
         for _ in range(150 if q else 2000):
             n = rng.choice([1, 2, 3, 4, 6, 9, 15, 27, 40])
             style = rng.choice(["box", "aniso", "clusters", "diag", "segments", "segments", "slab", "slab", "tripod"])
@@ -493,7 +572,10 @@ class C11(PropertyCheck):
                 cells = [(x, y, z) for x in range(ext[0] + 1) for y in range(ext[1] + 1) for z in range(ext[2] + 1)]
             pts = rng.sample(cells, min(n, len(cells)))
             cases.append({"kind": "grid", "xyz": [[p[0] + off[0], p[1] + off[1], p[2] + off[2]] for p in pts],
-                          "k": rng.choice([6, 18, 26, 26])})
+                          "k": rng.choice([6, 18, 26, 26]),
+                          "xdt": rng.choice([None, None, None, "int8", "uint8", "int16", "uint16", "int32", "uint32", "int64",
+                                             "float64"]),
+                          "lay": rng.choice(W3.LAYOUTS)})
         for _ in range(120 if q else 1500):
             cases.append(M2.gen_bip(rng))
         for _ in range(40 if q else 400):
@@ -514,6 +596,7 @@ class C11(PropertyCheck):
         warnings.filterwarnings("ignore")
         from nipy.algorithms.graph import graph as G
         self._edtype = case.get("edtype")
+        self._wdtype = case.get("wdtype")
         if case["kind"] == "bip":
             return M2.bip_case(case)
         if case["kind"] == "vd":
@@ -522,15 +605,23 @@ class C11(PropertyCheck):
 
     # ---- graphs ------------------------------------------------------
     _edtype = None
+    _wdtype = None
 
     def _mk(self, G, V, edges):
         if edges:
             dt = np.intp
             if self._edtype and V - 1 <= np.iinfo(self._edtype).max:
                 dt = np.dtype(self._edtype)
-            return G.WeightedGraph(V, np.array([[u, v] for u, v, _ in edges], dtype=dt),
-                                   np.array([w for _, _, w in edges], dtype=float))
+            w = np.array([w for _, _, w in edges], dtype=float)
+            if self._wdtype and W3.representable(w, self._wdtype):
+                w = w.astype(self._wdtype)      # the same numbers as the caller may hold them
+            return G.WeightedGraph(V, np.array([[u, v] for u, v, _ in edges], dtype=dt), w)
         return G.WeightedGraph(V)
+
+    def _how(self):
+        h = [f"edge indices {self._edtype}" if self._edtype else "", f"weights {self._wdtype}" if self._wdtype else ""]
+        h = ", ".join(x for x in h if x)
+        return f" [{h}]" if h else ""
 
     def _g(self, c, G):
         V, edges, seeds = c["V"], [tuple(e) for e in c["e"]], c["seeds"]
@@ -609,6 +700,8 @@ class C11(PropertyCheck):
                 if ok and not np.array_equal(np.atleast_2d(F), sp_dij(M, directed=True)):
                     fails.append("floyd() differs from scipy.sparse.csgraph.dijkstra")
         if neg:
+            if fails:
+                fails[0] += self._how()
             return {"lines": lines, "impl": impl, "oracle": fails[0] if fails else None,
                     "nontrivial": True, "tags": tags, "mutated": None}
 
@@ -697,6 +790,25 @@ class C11(PropertyCheck):
 
         if not big:
             self._structural(c, G, V, edges, gl, A, sym, call, add, fails)
+        else:
+            # large graphs: the row arithmetic of concatenate_graphs and the slices of compact_neighb
+            e2 = edges[::-1][: max(1, len(edges) // 2)]
+            ok, g = call("concatenate_graphs", lambda: G.concatenate_graphs(self._mk(G, V, edges), self._mk(G, V, e2)))
+            if not ok:
+                fails.append(f"concatenate_graphs raised {g} (V={V}, E1={len(edges)}, E2={len(e2)})")
+            else:
+                add(f"cat {gl} {gline(V, e2)}", gobs(g, sort=False))
+                if int(g.V) != 2 * V or not consistent(g) or gedges(g) != edges + [(V + a, V + b, w) for a, b, w in e2]:
+                    bad = next((i for i, (x, y) in enumerate(zip(gedges(g), edges + [(V + a, V + b, w) for a, b, w in e2]))
+                                if x != y), 0)
+                    fails.append(f"concatenate_graphs of two graphs on {V} vertices: row {bad} is "
+                                 f"{(gedges(g) + [None] * (bad + 1))[bad]}, expected the second graph's row shifted by {V}")
+            try:
+                W3.compact_line(self._mk(G, V, edges), V, edges, add, fails.append)
+            except Exception as e:      # noqa: BLE001
+                fails.append(f"compact_neighb raised {type(e).__name__}: {e} (V={V})")
+        if fails:
+            fails[0] += self._how()
         return {"lines": lines, "impl": impl, "oracle": fails[0] if fails else None,
                 "nontrivial": bool(edges), "tags": tags, "mutated": None}
 
@@ -721,6 +833,51 @@ class C11(PropertyCheck):
             except Exception as e:
                 fails.append(f"{which} query raised {type(e).__name__}: {e} (V={V}, edges={edges[:8]})")
         M2.builder_lines(G, V, edges, A, add, fails)
+        # lil_cc called directly on the rows in edge-list order (unsorted, repeated targets): the very lists the model's
+        # breadth-first loop walks
+        try:
+            lab = [int(x) for x in G.lil_cc([[b for a, b, _ in edges if a == v] for v in range(V)])]
+            add(f"cc {gl}" if sym else f"ccd {gl}", " ".join(map(str, lab)) + (" | ok" if sym else ""))
+            if sym and lab != ref_components(V, edges):
+                fails.append(f"lil_cc labels {lab} are not the components by reachability {ref_components(V, edges)}")
+        except Exception as e:      # noqa: BLE001
+            fails.append(f"lil_cc raised {type(e).__name__}: {e} (V={V}, edges={edges[:8]})")
+        try:
+            W3.compact_line(mk(), V, edges, add, fails.append)
+        except Exception as e:      # noqa: BLE001
+            fails.append(f"compact_neighb raised {type(e).__name__}: {e} (V={V}, edges={edges[:8]})")
+        # remove_edges: an edge is removed iff its entry of `valid` is 0, whatever the type of the selector
+        keep01 = np.array([(3 * i + len(edges) + V) % 4 != 0 for i in range(len(edges))], dtype=np.int64)
+        for kind in ([W3.SELECTOR_KINDS[(len(edges) + V) % len(W3.SELECTOR_KINDS)], "scores"] if edges else ["int"]):
+            valid = W3.selector(keep01, kind)
+            def f():
+                g = mk()
+                g.remove_edges(valid)
+                return g
+            ok, g = call("remove_edges", f)
+            if not ok:
+                fails.append(f"remove_edges({kind} selector) raised {g} (E={len(edges)})")
+                continue
+            W3.rme_line(V, edges, valid, self._rows_txt(g), add)
+            if not consistent(g) or gedges(g) != [e for e, k_ in zip(edges, keep01) if k_]:
+                fails.append(f"remove_edges(valid={np.asarray(valid).ravel().tolist()}): E={int(g.E)}, rows "
+                             f"{np.asarray(g.edges).tolist()[:8]} are not the rows whose entry is not 0 (edges {edges[:8]})")
+        # set_euclidian on a small integer embedding, presented in several dtypes
+        Xe = np.array([[float((3 * v + k_) % 7) for k_ in range(1 + V % 2)] for v in range(V)])
+        for xdt in ([None, ["int64", "uint8", "int8", "int16", "uint16"][(V + len(edges)) % 5]]):
+            def f():
+                g = mk()
+                g.set_euclidian(W3.present(Xe, xdt, W3.LAYOUTS[(V + len(edges)) % len(W3.LAYOUTS)]))
+                return g
+            ok, g = call("set_euclidian", f)
+            if not ok:
+                fails.append(f"set_euclidian raised {g} on a graph with {len(edges)} edges (X as {xdt or 'float64'})")
+                continue
+            W3.euclid_line(V, edges, Xe, np.asarray(g.weights, float) if edges else np.zeros(0), add)
+            want = [(a, b, float(np.sqrt(((Xe[a] - Xe[b]) ** 2).sum()))) for a, b, _ in edges]
+            if not consistent(g) or gedges(g) != want:
+                fails.append(f"set_euclidian(X as {xdt or 'float64'}): weights {np.asarray(g.weights).tolist()[:6]} are not "
+                             f"the distances {[w for _, _, w in want][:6]} between the embedded end points")
         M2.base_graph_oracle(G, V, edges, fails)
         if edges:
             # set_gaussian on a small integer embedding (sigma = 0 means the mean squared length)
@@ -828,8 +985,6 @@ class C11(PropertyCheck):
                 same(dense(2 * V, gedges(g)), want, "concatenate_graphs")
         # normalize
         for cc_ in (0, 1, 2):
-            if cc_ == 2 and not sym:
-                continue
             def f():
                 g = mk()
                 r = g.normalize(cc_)
@@ -842,6 +997,12 @@ class C11(PropertyCheck):
                 continue
             g, ret = r
             rs, cs = A.sum(1), A.sum(0)
+            if cc_ == 2 and edges:
+                W3.norm2_line(V, edges, gobs(g), ret, add)
+                if not sym:       # no documented meaning beyond "nothing is performed where the sum is 0"
+                    if not consistent(g) or not np.array_equal(np.sign(dense(V, gedges(g))), np.sign(A)):
+                        fails.append(f"normalize(2) changed the zero / sign pattern of the adjacency matrix (edges {edges[:8]})")
+                    continue
             if cc_ < 2:
                 sums = rs if cc_ == 0 else cs
                 retv = np.asarray(ret, float).ravel()
@@ -874,25 +1035,73 @@ class C11(PropertyCheck):
                 "nontrivial": n >= 2, "tags": ["complete"], "mutated": None}
 
     # ---- operation histories on one object ---------------------------
+    def _start(self, G, c):
+        """the object a history starts from, and how it was obtained"""
+        from scipy import sparse as sp
+        start = c.get("start", "ctor")
+        V, edges = c["V"], [tuple(e) for e in c["e"]]
+        if start in ("coo", "csr", "csc", "lil") and edges:
+            i = np.array([e[0] for e in edges]); j = np.array([e[1] for e in edges])
+            w = np.array([e[2] for e in edges], dtype=float)
+            m = sp.coo_matrix((w, (i, j)), shape=(V, V))
+            m = {"coo": m, "csr": m.tocsr(), "csc": m.tocsc(), "lil": m.tolil()}[start]
+            return G.wgraph_from_coo_matrix(m), f"wgraph_from_coo_matrix({start} matrix)"
+        if start == "adj" and edges:
+            return G.wgraph_from_adjacency(dense(V, edges)), "wgraph_from_adjacency"
+        if start == "cat" and edges:
+            return (G.concatenate_graphs(self._mk(G, V, edges), self._mk(G, V, edges[::-1])),
+                    "concatenate_graphs(g, g reversed)")
+        if start in ("knn", "eps", "mst"):
+            X = np.array(c["X"], dtype=float)
+            if start == "knn":
+                return G.knn(X, c["k"]), f"knn(X, {c['k']})"
+            if start == "eps":
+                return G.eps_nn(X, c["eps"]), f"eps_nn(X, {c['eps']})"
+            return with_timeout(lambda: G.mst(X)), "mst(X)"
+        if start == "grid":
+            return G.wgraph_from_3d_grid(np.array(c["xyz"], dtype=np.intp).reshape(-1, 3), c["k"]), \
+                f"wgraph_from_3d_grid(xyz, {c['k']})"
+        if start == "complete":
+            return G.complete_graph(V), f"complete_graph({V})"
+        return self._mk(G, V, edges), "WeightedGraph(V, edges, weights)" + self._how()
+
+    @staticmethod
+    def _rows_txt(g):
+        """V, the E the object claims, and the rows its arrays really hold"""
+        ed = np.asarray(g.edges).reshape(-1, 2)
+        w = np.asarray(g.weights, float).ravel()
+        return " ".join([str(int(g.V)), str(int(g.E))] + [f"{int(a)} {int(b)} {fr(x)}" for (a, b), x in zip(ed.tolist(), w.tolist())])
+
     def _hist(self, c, G):
-        V0, edges0 = c["V"], [tuple(e) for e in c["e"]]
-        g = self._mk(G, V0, edges0)
-        lines, impl, fails, tags = [], [], [], ["history"]
+        lines, impl, fails, tags = [], [], [], ["history", "start:" + c.get("start", "ctor")]
         trail = []
+        try:
+            g, origin = self._start(G, c)
+        except _Timeout:
+            return {"lines": [], "impl": [], "oracle": f"mst(X) did not terminate within 2 s (X={c.get('X')})",
+                    "nontrivial": True, "tags": tags, "mutated": None}
+        except Exception as e:
+            return {"lines": [], "impl": [], "oracle": f"building the graph ({c.get('start')}) raised "
+                    f"{type(e).__name__}: {e} (case {str(c)[:200]})", "nontrivial": True, "tags": tags, "mutated": None}
+        V0, edges0 = int(g.V), gedges(g)
 
         def add(line, obs):
             lines.append(line)
             impl.append(obs)
 
         def fail(msg):
-            fails.append(f"after {' -> '.join(trail) or 'construction'}: {msg} "
+            fails.append(f"after {origin}{' -> ' if trail else ''}{' -> '.join(trail)}: {msg} "
                          f"(start V={V0} edges={edges0[:10]}, current edges={gedges(g)[:10]})")
 
         def eqd(a, b):
             return len(a) == len(b) and all((x == y) or (x != INF and y != INF and close(x, y, 1e-9, 1e-12))
                                              for x, y in zip(a, b))
+        if not consistent(g):
+            fail("E, edges and weights of the new graph have different lengths")
 
         for name, arg in c["steps"]:
+            if fails:
+                break
             cur, V = gedges(g), int(g.V)
             gl = gline(V, cur)
             neg = any(w < 0 for _, _, w in cur)
@@ -965,24 +1174,25 @@ class C11(PropertyCheck):
                     if not neg:
                         M2.query_lines(g, V, cur, sym, name, add, fail)
                 elif name == "compact":
-                    idx, nb, wt = g.compact_neighb() if cur else (np.zeros(V + 1, int), [], [])
-                    for v in range(V):
-                        got = sorted(zip(np.asarray(nb)[idx[v]:idx[v + 1]].tolist(), np.asarray(wt)[idx[v]:idx[v + 1]].tolist()))
-                        if got != sorted((b, w) for a, b, w in cur if a == v):
-                            fail(f"compact_neighb slice of vertex {v} is {got}")
-                            break
+                    W3.compact_line(g, V, cur, add, fail)
                 # ------------------------------------------------ operations
                 elif name == "normalize":
                     cc_ = int(arg)
-                    if neg or not cur:
+                    if neg:
                         continue
+                    A = dense(V, cur)
+                    ret = g.normalize(cc_)
+                    if not cur:
+                        if int(g.E) != 0 or not consistent(g):
+                            fail(f"normalize({cc_}) of a graph without edges has edges")
+                        continue
+                    if cc_ == 2:
+                        W3.norm2_line(V, cur, gobs(g), ret, add)
                     if cc_ == 2 and not sym:
                         # what 'symmetric' normalisation means on a directed graph is not specified; what is:
                         # "when the sum is 0, nothing is performed" - every weight is divided by positive numbers
                         # (or left alone), so no entry of the adjacency matrix appears, vanishes or changes sign,
                         # and the two scalings handed back are positive
-                        A = dense(V, cur)
-                        ret = g.normalize(2)
                         B = dense(V, gedges(g))
                         if not consistent(g) or not np.array_equal(np.sign(B), np.sign(A)):
                             fail("normalize(2) on a directed graph changed the zero / sign pattern of the adjacency "
@@ -996,8 +1206,6 @@ class C11(PropertyCheck):
                             except Exception:      # noqa: BLE001
                                 pass
                         continue
-                    A = dense(V, cur)
-                    ret = g.normalize(cc_)
                     rs, cs = A.sum(1), A.sum(0)
                     if cc_ < 2:
                         add(f"norm {cc_} {gl}", gobs(g) + " | " + frs(np.asarray(ret, float).ravel().tolist()))
@@ -1032,7 +1240,7 @@ class C11(PropertyCheck):
                     if gedges(g) != cur or int(g.V) != V:
                         fail("copy() is not an independent copy of the graph")
                 elif name == "sub":
-                    keep01 = np.array(arg[:V])
+                    keep01 = np.array([arg[i % len(arg)] for i in range(V)])
                     # the selector as callers hold it: 0/1 integers, booleans, or signed scores / labels of which
                     # the positive ones are kept ("vertices for which valid > 0")
                     how = ["int", "bool", "scores", "int", "float"][(int(keep01.sum()) + len(cur) + V) % 5]
@@ -1065,42 +1273,99 @@ class C11(PropertyCheck):
                         w = np.array([x[2] for x in cur]) * float(arg)
                     else:
                         w = np.array([arg[i % len(arg)] for i in range(len(cur))])
+                    wp = w.astype(self._wdtype) if self._wdtype and W3.representable(w, self._wdtype) else w.copy()
                     if name == "setw":
-                        g.set_weights(w.copy())
+                        g.set_weights(wp)
                     elif name == "assignw":
-                        g.weights = w.copy()
-                    else:
+                        g.weights = wp
+                    elif np.asarray(g.weights).dtype.kind == "f":
                         g.weights *= float(arg)
+                    else:
+                        g.weights = g.weights * float(arg)
                     if gedges(g) != [(a, b, float(x)) for (a, b, _), x in zip(cur, w)]:
                         fail(f"{name}: the weights of the graph are not the assigned ones")
                 elif name == "euclid":
-                    if not cur:
-                        continue
                     X = np.array([arg[i % len(arg)] for i in range(V)], dtype=float).reshape(V, 1)
-                    g.set_euclidian(X)
+                    xdt = [None, "int64", "uint8", "int8", None, "int16", "uint16"][(V + len(cur)) % 7]
+                    lay = W3.LAYOUTS[(V + 2 * len(cur)) % len(W3.LAYOUTS)]
+                    label = f"set_euclidian[{W3.how(xdt, lay) or 'float64'}]"
+                    g.set_euclidian(W3.present(X, xdt, lay))
+                    W3.euclid_line(V, cur, X, np.asarray(g.weights, float) if cur else np.zeros(0), add)
                     want = [(a, b, float(abs(X[a, 0] - X[b, 0]))) for a, b, _ in cur]
                     if not consistent(g) or gedges(g) != want:
-                        fail("set_euclidian: weights are not the distances between the embedded end points")
+                        fail("set_euclidian: weights are not the distances between the embedded end points "
+                             f"(X={X.ravel().tolist()})")
                 elif name == "gauss":
-                    if not cur:
-                        continue
                     X = np.array([arg[i % len(arg)] for i in range(V)], dtype=float).reshape(V, 1)
                     d2 = np.array([(X[a, 0] - X[b, 0]) ** 2 for a, b, _ in cur])
-                    if d2.mean() == 0:
+                    if cur and d2.mean() == 0:
                         continue
-                    g.set_gaussian(X)
+                    with np.errstate(all="ignore"):
+                        g.set_gaussian(X)
+                    if not cur:
+                        if int(g.E) != 0 or np.size(g.weights) != 0:
+                            fail("set_gaussian of a graph without edges has weights")
+                        continue
                     want = np.exp(-d2 / (2 * d2.mean()))
                     add(f"gauss {gl} 0 {M2.mat(X)}", " ".join(fr(np.log(x)) for x in np.asarray(g.weights, float).tolist()))
                     if not consistent(g) or not np.allclose(np.asarray(g.weights, float), want, rtol=1e-12) or \
                             [(a, b) for a, b, _ in gedges(g)] != [(a, b) for a, b, _ in cur]:
                         fail("set_gaussian: weights are not exp(-d^2 / (2 mean d^2)) of the embedded end points")
                 elif name == "remove_edges":
-                    if not cur:
-                        continue
-                    valid = np.array([arg[i % len(arg)] for i in range(len(cur))])
+                    keep01 = np.array([arg[i % len(arg)] for i in range(len(cur))], dtype=np.int64)
+                    kind = W3.SELECTOR_KINDS[(int(keep01.sum()) + len(cur) + V) % len(W3.SELECTOR_KINDS)]
+                    valid = W3.selector(keep01, kind)
+                    label = f"remove_edges[{kind}]"
                     g.remove_edges(valid)
-                    if not consistent(g) or gedges(g) != [e for e, k in zip(cur, valid) if k]:
-                        fail("remove_edges did not keep exactly the edges flagged valid")
+                    W3.rme_line(V, cur, valid, self._rows_txt(g), add)
+                    if not consistent(g) or gedges(g) != [e for e, k in zip(cur, keep01) if k]:
+                        fail(f"remove_edges(valid={np.asarray(valid).ravel().tolist()}) did not keep exactly the edges "
+                             f"whose entry is not 0: E={int(g.E)}, rows={np.asarray(g.edges).tolist()}")
+                elif name == "concat":
+                    if V > 150:
+                        continue
+                    if arg == "edgeless":
+                        h, V2, e2 = G.WeightedGraph(2), 2, []
+                    elif arg == "loop":
+                        h, V2, e2 = G.WeightedGraph(1, np.array([[0, 0]]), np.array([1.0])), 1, [(0, 0, 1.0)]
+                    else:
+                        h, V2, e2 = g.copy(), V, list(cur)
+                    g = G.concatenate_graphs(g, h)
+                    add(f"cat {gl} {gline(V2, e2)}", gobs(g, sort=False))
+                    if int(g.V) != V + V2 or not consistent(g) or \
+                            gedges(g) != cur + [(V + a, V + b, w) for a, b, w in e2]:
+                        fail(f"concatenate_graphs: rows {gedges(g)[:12]} are not the rows of the first graph followed by "
+                             f"those of the second shifted by {V}")
+                elif name == "from_grid":
+                    if V > 27:
+                        continue
+                    cells = list(itertools.product(range(3), repeat=3))
+                    off, stride, k = sum(arg[:16]) % 27, [2, 4, 5, 7, 8, 10][arg[0] % 6], arg[16]
+                    xyz = np.array([cells[(off + v * stride) % 27] for v in range(V)], dtype=np.intp)
+                    xdt = [None, "int8", "uint8", "int32", None, "int16"][(V + len(cur)) % 6]
+                    E = g.from_3d_grid(W3.present(xyz, xdt, "C"), k)
+                    label = f"from_3d_grid[{xdt or 'intp'}]({k})"
+                    ed = gedges(g)
+                    add(f"grid {k} {V} " + " ".join(str(int(x)) for x in xyz.ravel()),
+                        " ".join([str(len(ed))] + [f"{a} {b} {int(round(w * w))}" for a, b, w in sorted(ed)]))
+                    maxl1 = {6: 1, 18: 2, 26: 3}[k]
+                    want = {(i, j): float(np.sqrt(np.abs(xyz[i] - xyz[j]).sum())) for i in range(V) for j in range(V)
+                            if i != j and np.abs(xyz[i] - xyz[j]).max() <= 1 and np.abs(xyz[i] - xyz[j]).sum() <= maxl1}
+                    if int(E) != len(ed) or not consistent(g) or len(ed) != len(want) or {(a, b): w for a, b, w in ed} != want:
+                        fail(f"from_3d_grid(k={k}): edges differ from the {k}-neighbourhood of xyz={xyz.tolist()}")
+                elif name == "vdiag":
+                    S = np.array([[2.0 * v + (arg[v % 16] % 2), arg[(v + 3) % 16]] for v in range(V)])
+                    X = np.array([[arg[(3 * s_ + 1) % 16] * V / 4.0, arg[(3 * s_ + 2) % 16]] for s_ in range(1 + int(arg[0]) % 6)])
+                    with np.errstate(all="ignore"):
+                        g.voronoi_diagram(S.copy(), X.copy())
+                    if V == 1:
+                        if int(g.E) != 0 or not consistent(g):
+                            fail("voronoi_diagram with a single seed has edges")
+                    else:
+                        M2.vdiag_line(S, X, g, add)
+                        msg = M2.vd_oracle(S, X, g)
+                        if msg:
+                            fail(msg)
                 else:
                     raise KeyError(name)
             except (KeyError, _Timeout):
@@ -1111,14 +1376,13 @@ class C11(PropertyCheck):
                 break
             trail.append(label)
             tags.append("h:" + name)
-            if fails:
-                break
         return {"lines": lines, "impl": impl, "oracle": fails[0] if fails else None,
-                "nontrivial": bool(edges0) and len(c["steps"]) >= 3, "tags": sorted(set(tags)), "mutated": None}
+                "nontrivial": len(c["steps"]) >= 3, "tags": sorted(set(tags)), "mutated": None}
 
     # ---- point clouds ------------------------------------------------
     def _pts(self, c, G):
         X = np.array(c["X"], dtype=float)
+        Xp = W3.present(X, c.get("xdt"), c.get("lay", "C"))     # what nipy is given: same numbers, other dtype / layout
         n, k, eps = X.shape[0], c["k"], c["eps"]
         lines, impl, fails = [], [], []
         tags = ["points", f"dim={X.shape[1]}"]
@@ -1127,16 +1391,16 @@ class C11(PropertyCheck):
         if len({tuple(p) for p in c["X"]}) < n:
             tags.append("duplicates")
         from nipy.algorithms.utils.fast_distance import euclidean_distance
-        dist = euclidean_distance(X)
+        dist = euclidean_distance(Xp)
         if not np.array_equal(dist, D):
             fails.append("euclidean_distance differs from sqrt(sum (x-y)^2) on exactly representable points")
         dm = f"{n} {n} " + frs(dist.ravel().tolist())
         lines.append(f"eucl {M2.mat(X)} {M2.mat(X)} {dm}")
         impl.append(frs((dist ** 2).ravel().tolist()) + " | ok")
-        snap = Snapshot(X=X)
+        snap = Snapshot(X=Xp)
         # knn
         try:
-            g = G.knn(X, k)
+            g = G.knn(Xp, k)
             lines.append(f"knn {k} {dm}")
             impl.append(gobs(g))
             tags.append("k>=n-1" if k >= n - 1 else "k<n-1")
@@ -1178,7 +1442,7 @@ class C11(PropertyCheck):
             impl.append(errname(e))
         # eps_nn
         try:
-            g = G.eps_nn(X, eps)
+            g = G.eps_nn(Xp, eps)
             lines.append(f"eps {fr(float(eps))} {fr(TINY_EPS)} {dm}")
             impl.append(gobs(g))
             want = {(i, j): max(D[i, j], TINY_EPS) for i in range(n) for j in range(n)
@@ -1192,7 +1456,7 @@ class C11(PropertyCheck):
         # mst (Boruvka on the complete Euclidean graph)
         if n <= 12:
             try:
-                g = with_timeout(lambda: G.mst(X))
+                g = with_timeout(lambda: G.mst(Xp))
                 ke = gedges(g)
                 if n >= 2:
                     lines.append(f"mst {n} {n} " + frs(D2.ravel().tolist()))
@@ -1222,6 +1486,11 @@ class C11(PropertyCheck):
             except Exception as e:
                 if n > 1:
                     fails.append(f"mst(X) raised {type(e).__name__}: {e} (X={c['X']})")
+        hw = W3.how(Xp.dtype if Xp.dtype != np.float64 else None, c.get("lay", "C"))
+        if fails and hw:
+            fails[0] += f" [points given as {hw}]"
+        if hw:
+            tags.append("presented")
         return {"lines": lines, "impl": impl, "oracle": fails[0] if fails else None,
                 "nontrivial": n >= 2, "tags": tags, "mutated": snap.changed()}
 
@@ -1229,11 +1498,13 @@ class C11(PropertyCheck):
         from nipy.algorithms.graph.bipartite_graph import cross_eps, cross_knn
         X = np.array(c["X"], dtype=float)
         Y = np.array(c["Y"], dtype=float)
+        Xp = W3.present(X, c.get("xdt"), c.get("lay", "C"))
+        Yp = W3.present(Y, c.get("ydt"), "C")
         n1, n2, k, eps = len(X), len(Y), c["k"], c["eps"]
         SQ = ((X[:, None, :] - Y[None, :, :]) ** 2).sum(2)
         sm = f"{n1} {n2} " + frs(SQ.ravel().tolist())
         lines, impl, fails = [], [], []
-        snap = Snapshot(X=X, Y=Y)
+        snap = Snapshot(X=Xp, Y=Yp)
 
         def bedges(g):
             if not int(g.E):
@@ -1243,12 +1514,12 @@ class C11(PropertyCheck):
         from nipy.algorithms.graph.bipartite_graph import check_feature_matrices
         from nipy.algorithms.utils.fast_distance import euclidean_distance
         try:
-            ED = euclidean_distance(X, Y)
+            ED = euclidean_distance(Xp, Yp)
             lines.append(f"eucl {M2.mat(X)} {M2.mat(Y)} {n1} {n2} " + frs(ED.ravel().tolist()))
             impl.append(frs((ED ** 2).ravel().tolist()) + " | ok")
             if not np.array_equal(ED, np.sqrt(SQ)):
                 fails.append("euclidean_distance(X, Y) differs from sqrt(sum (x-y)^2) on exactly representable points")
-            check_feature_matrices(X, Y)
+            check_feature_matrices(Xp, Yp)
             try:
                 check_feature_matrices(X, np.zeros((2, X.shape[1] + 1)))
                 fails.append("check_feature_matrices accepted matrices of different widths")
@@ -1262,7 +1533,7 @@ class C11(PropertyCheck):
         except Exception as e:
             fails.append(f"euclidean_distance / check_feature_matrices raised {type(e).__name__}: {e}")
         try:
-            g = cross_knn(X, Y, k)
+            g = cross_knn(Xp, Yp, k)
             be = bedges(g)
             rows = [sorted(w for a, _, w in be if a == i) for i in range(n1)]
             lines.append(f"xknn {k} {fr(TINY_X)} {n2} {sm}")
@@ -1281,7 +1552,7 @@ class C11(PropertyCheck):
         except Exception as e:
             fails.append(f"cross_knn(k={k}) raised {type(e).__name__}: {e}")
         try:
-            g = cross_eps(X, Y, eps)
+            g = cross_eps(Xp, Yp, eps)
             be = bedges(g)
             lines.append(f"xeps {fr(float(eps))} {fr(TINY_X)} {n2} {sm}")
             impl.append(" ".join([str(len(be))] + [f"{a} {b} {fr(w)}" for a, b, w in sorted(be)]))
@@ -1290,16 +1561,22 @@ class C11(PropertyCheck):
                 fails.append(f"cross_eps(eps={eps}): edges differ from the pairs with squared distance < eps")
         except Exception as e:
             fails.append(f"cross_eps(eps={eps}) raised {type(e).__name__}: {e}")
+        hw = "; ".join(x for x in (W3.how(Xp.dtype if Xp.dtype != np.float64 else None, c.get("lay", "C")),
+                                   W3.how(Yp.dtype if Yp.dtype != np.float64 else None, "C")) if x)
+        if fails and hw:
+            fails[0] += f" [X / Y given as {hw}]"
         return {"lines": lines, "impl": impl, "oracle": fails[0] if fails else None,
-                "nontrivial": n1 * n2 >= 2, "tags": ["cross", "k>=n2" if k >= n2 else "k<n2"], "mutated": snap.changed()}
+                "nontrivial": n1 * n2 >= 2, "tags": ["cross", "k>=n2" if k >= n2 else "k<n2"] + (["presented"] if hw else []),
+                "mutated": snap.changed()}
 
     def _grid(self, c, G):
         xyz = np.array(c["xyz"], dtype=np.intp).reshape(-1, 3)
+        xp = W3.present(xyz, c.get("xdt"), c.get("lay", "C"))
         n, k = len(xyz), c["k"]
         lines, impl, fails = [], [], []
-        snap = Snapshot(xyz=xyz)
+        snap = Snapshot(xyz=xp)
         try:
-            g = G.wgraph_from_3d_grid(xyz, k)
+            g = G.wgraph_from_3d_grid(xp, k)
             ed = gedges(g)
             sq = sorted((a, b, int(round(w * w))) for a, b, w in ed)
             lines.append(f"grid {k} {n} " + " ".join(str(int(x)) for x in xyz.ravel()))
@@ -1313,7 +1590,7 @@ class C11(PropertyCheck):
                         want[(i, j)] = float(np.sqrt(d.sum()))
             got = {(a, b): w for a, b, w in ed}
             h = G.WeightedGraph(n)
-            E = h.from_3d_grid(xyz, k)
+            E = h.from_3d_grid(xp, k)
             if int(E) != len(ed) or gedges(h) != ed:
                 fails.append(f"WeightedGraph.from_3d_grid(k={k}) differs from wgraph_from_3d_grid")
             for bad in (lambda: G.WeightedGraph(n + 1).from_3d_grid(xyz, k), lambda: G.wgraph_from_3d_grid(xyz[:, :2], k),
@@ -1331,8 +1608,11 @@ class C11(PropertyCheck):
                              f"(xyz={c['xyz']})")
         except Exception as e:
             fails.append(f"wgraph_from_3d_grid(k={k}) raised {type(e).__name__}: {e} (xyz={c['xyz']})")
+        hw = W3.how(xp.dtype if xp.dtype != np.intp else None, c.get("lay", "C"))
+        if fails and hw:
+            fails[0] += f" [xyz given as {hw}]"
         return {"lines": lines, "impl": impl, "oracle": fails[0] if fails else None,
-                "nontrivial": n >= 2, "tags": ["grid", f"k={k}"], "mutated": snap.changed()}
+                "nontrivial": n >= 2, "tags": ["grid", f"k={k}"] + (["presented"] if hw else []), "mutated": snap.changed()}
 
     # ------------------------------------------------------------------
     def compare(self, case, impl_obs, model_out):
